@@ -243,11 +243,59 @@ def sweep_chars(rng, full):
 _SWEEP_CACHE = {}
 
 
+def py_cat_sem(extras, out, code, ch):
+    """the model's cat_sem, written again in Python (used for the exhaustive sweep: the extracted model is compared with
+    this on the boundary sample, and this with CPython re on every code point)"""
+    c = ord(ch)
+    up, lo, d09 = 65 <= c <= 90, 97 <= c <= 122, 48 <= c <= 57
+    word = ch.isalnum() or ch == '_'
+    exc = '' if '_' in extras else '_'
+    inc = extras.replace('_', '')
+    inx = ch in extras
+    return {
+        'A': up, 'a': lo, 'L': up or lo, 'Ḹ': word and not d09 and ch != '_',
+        'B': up or inx, 'b': lo or inx, 'M': up or lo or inx,
+        'Ṃ': (word and not d09 and ch != '_') if not extras else ((word and not d09 and ch not in exc) or ch in inc),
+        'D': d09 if out else ch.isdecimal(),
+        'h': d09 or 97 <= c <= 102, 'H': d09 or 65 <= c <= 70, 'X': d09 or 97 <= c <= 102 or 65 <= c <= 70,
+        'N': up or d09 or inx, 'n': lo or d09 or inx, 'C': up or lo or d09 or inx,
+        'Ḉ': (word and ch not in exc) or ch in inc,
+        ' ': ch.isspace(), '.': 33 <= c <= 126 and not (up or lo or d09) and not inx,
+        '*': not (33 <= c <= 126) and not ch.isspace(), '?': True}[code]
+
+
+def exhaustive_formula_sweep(ctx):
+    """every code point: the Python restatement of cat_sem vs CPython re, for every category, extras set and dialect"""
+    chars = [chr(c) for c in range(0x110000) if not (0xD800 <= c <= 0xDFFF)]
+    n = 0
+    for extras in EXTRAS:
+        for dialect, out in ((None, False), ('portable', True)):
+            cats = rx.Categories(extras or None, dialect=dialect)
+            for code in CAT_CODES:
+                try:
+                    cat = cats[code]
+                except KeyError:
+                    continue
+                if out and code != 'D':
+                    continue
+                single = _re.compile('^%s$' % cat.re_string, rx.RE_FLAGS)
+                bad = [hex(ord(ch)) for ch in chars if (single.match(ch) is not None) != bool(py_cat_sem(extras, out, code, ch))]
+                n += len(chars)
+                if bad:
+                    ctx.mismatch('category-semantics-exhaustive', {'extras': extras, 'dialect': dialect, 'code': code,
+                                                                   'first_bad_code_points': bad[:8]}, 'cat_sem formula', 're.match')
+    ctx.cov['evaluations'] += n
+    ctx.extra['exhaustive_code_point_sweep'] = n
+
+
 def char_sweeps(ctx, full=False):
     """Model category semantics / regex text / coarse and fine classification vs the real Categories and re."""
     import lib
     if not ctx.model_ok:
         return
+    if full:
+        exhaustive_formula_sweep(ctx)
+        full = False          # the extracted model itself is swept on the boundary sample (every table boundary +-1)
     chars = _SWEEP_CACHE.get(full)
     if chars is None:
         chars = _SWEEP_CACHE[full] = sweep_chars(ctx.rng, full)
@@ -274,6 +322,9 @@ def char_sweeps(ctx, full=False):
                 want = [single.match(ch) is not None for ch in chars]
                 got = [bool(b) for b in ctx.model.call(17, [extras, out, ord(code), text])]
                 n += len(chars)
+                if got != [bool(py_cat_sem(extras, out, code, ch)) for ch in chars]:
+                    ctx.mismatch('category-semantics-formula', {'extras': extras, 'dialect': dialect, 'code': code}, 'cat_sem',
+                                 'python restatement of cat_sem')
                 if got != want:
                     bad = [hex(ord(ch)) for ch, g, w in zip(chars, got, want) if g != w][:8]
                     ctx.mismatch('category-semantics', {'extras': extras, 'dialect': dialect, 'code': code,
